@@ -84,32 +84,6 @@ func VerifC01Snapshot() []VerifC01Snap {
 	return out
 }
 
-// VerifC01Consolidate runs consolidateColumnTypes on every open WIP block (it is
-// idempotent: the flush that follows finds no column with both index kinds) and
-// returns the state after it.
-func VerifC01Consolidate() ([]VerifC01Snap, error) {
-	allSegStoresLock.RLock()
-	defer allSegStoresLock.RUnlock()
-	ids := make([]string, 0, len(allSegStores))
-	for id := range allSegStores {
-		ids = append(ids, id)
-	}
-	sort.Strings(ids)
-	out := make([]VerifC01Snap, 0, len(ids))
-	for _, id := range ids {
-		ss := allSegStores[id]
-		ss.Lock.Lock()
-		err := consolidateColumnTypes(&ss.wipBlock, ss.SegmentKey)
-		if err != nil {
-			ss.Lock.Unlock()
-			return out, err
-		}
-		out = append(out, verifC01Snap(id, ss))
-		ss.Lock.Unlock()
-	}
-	return out, nil
-}
-
 // VerifC01PackDict runs the real PackDictEnc on a scratch column holding the given dictionary.
 func VerifC01PackDict(words [][]byte, recs [][]uint16, blkRecCount uint16) []byte {
 	cw := InitColWip("verif", "verif")
